@@ -1,7 +1,7 @@
 # C14 spec (see tools/props.py)
 SPEC = {
         "ready": True,
-        "sources": ["c14.cpp", "c14_f.cpp", "c14_d.cpp", "c14_max_f.cpp", "c14_max_d.cpp", "c14_guard_f.cpp", "c14_guard_d.cpp"],
+        "sources": ["c14.cpp", "c14_f.cpp", "c14_d.cpp", "c14_max_f.cpp", "c14_max_d.cpp", "c14_guard_f.cpp", "c14_guard_d.cpp", "c14_ovf_f.cpp", "c14_ovf_d.cpp"],
         "lib": [],
         "technique": "exhaustive enumeration of (box, origin, direction) over integer lattices and over a power-of-two boundary alphabet against an exact slab test "
                      "(integers / cross-multiplied fractions, exact in long double on the power-of-two alphabet, "
@@ -14,7 +14,11 @@ SPEC = {
                       "makeInfinite(), makeEmpty(), half spaces, slabs - x origins {-1,0,2}^3 x directions {-2..2}^3 (thorough {-3..3}^3); (signed) every (min,max) in {-2..1} per axis x origins "
                       "{-3..2}^3 x directions {-1,0,1}^3 (thorough {-2..2}^3); (negzero) boxes/origins/directions over {-1,0,1} with every choice of zero components passed as -0.0; "
                       "(guard) origin 0, faces E,E+1 (E = fl(max*3/4)), max-ulp, max (thorough also E-1, max-2ulp) and direction components 0,+-3/4,+-(1-eps/2),+-1,+-(1+eps) (thorough +-3/2): the "
-                      "operands of every overflow guard |face-origin| < max*|dir| are equal or one ulp apart.",
+                      "operands of every overflow guard |face-origin| < max*|dir| are equal or one ulp apart. "
+                      "(overflow-fallback) elongated boxes with per-axis (min,max) in {(0,2),(0,8),(4,8),(-8,-2)}s (thorough +(2,2),(-2,4)) x origins {-9,-1,0,1,3,6,9}^3 s (thorough +-5,4) x direction components "
+                      "{0,+-denorm_min,+-min,+-2^-30,+-1}, s in {1, 2^(emax-28)}; in the overflow regimes of this, of the extreme and of the guard alphabet the three truth values are additionally compared with an exact "
+                      "evaluation of the library's documented fallback design (an axis whose slab quotient exceeds max is handled as parallel by findEntryAndExitPoints; intersects saturates the parameter to max), "
+                      "sites '<entry point>.overflow-regime.vs-documented-fallback'; the max-face alphabet has no case in an overflow regime (|dir| >= 1, finite differences).",
         "level_note": "Bounded scope: small-integer and power-of-two coordinates only. Cases of the extreme alphabet in which a slab parameter t underflows (0 < |t| < min) are outside the "
                       "checked domain and are counted, except those in which no underflowing parameter can be binding (tin >= min resp. tout <= -min, or a zero direction component already decides "
                       "'miss'), which are judged under '.t-underflows-on-non-binding-axis' sites, and those with an exact hit and no parameter beyond max, for which only 'an exact hit is reported as a hit' is "
@@ -26,7 +30,7 @@ SPEC = {
                 "origin inside, hit from outside, box behind the origin (line hits, ray misses), single contact point (grazing edge/corner/face), a zero direction component, "
                 "a slab parameter beyond the largest finite value on some / on every axis, the box is makeInfinite() / a half space or slab with a face at +-max / makeEmpty() / "
                 "empty with coordinates at max, a guard's operands are equal / one ulp apart, an exact parameter is max+1 or max+2, box coordinates all negative / straddling zero, a direction "
-                "component or a box/origin coordinate is -0.0, an underflowing parameter on a non-binding axis, an exact hit with an underflowing parameter ('miss.generic' excluded)",
+                "component or a box/origin coordinate is -0.0, an underflowing parameter on a non-binding axis, an exact hit with an underflowing parameter, per axis and sign of the direction component an overflowing axis with the origin outside / inside its slab on an elongated box (the six unrolled fallback branches, both outcomes) ('miss.generic' excluded)",
         "assumptions": ["zero direction vectors are outside the property's domain and are excluded",
                         "long double has a 64-bit significand (x86-64): the power-of-two alphabet's cross products are exact"],
     }
